@@ -513,8 +513,12 @@ fn gen(rng: &mut Rng, i: u64) -> String {
 	}
 
 	// ---------------------------------------------------------------- the image
+	let rebased = !file && rng.chance(1, 3);
+	let hdr_base: u64 = if pe64 { *rng.pick(&[0x1_8000_0000u64, 0x10000, 0x7FF7_0000_0000]) } else { *rng.pick(&[0x1000_0000u64, 0x10000, 0x6000_0000]) };
 	let mut spec = ImgSpec {
-		pe64, e_lfanew: *rng.pick(&[0x80u32, 0x40, 0xF8]), soh: 0x400, soi: SOI, image_base: base, nrva, dirs: dirs.clone(),
+		// a third of the mapped views are REBASED: the header keeps another ImageBase, the view is moved to `base` with
+		// set_base_address, and every VA the directories hold (TLS, load config) is relative to `base`
+		pe64, e_lfanew: *rng.pick(&[0x80u32, 0x40, 0xF8]), soh: 0x400, soi: SOI, image_base: if rebased { hdr_base } else { base }, nrva, dirs: dirs.clone(),
 		opt_size: 0, nsec_field: 3, secs: Vec::new(), checksum: 0, magic: if pe64 { 0x20b } else { 0x10b },
 	};
 	spec.opt_size = spec.std_opt_size();
@@ -524,6 +528,13 @@ fn gen(rng: &mut Rng, i: u64) -> String {
 		s
 	};
 	spec.secs = vec![mk(".text", TEXT_VA, TEXT_SZ, TEXT_PRD), mk(".rdata", RDATA_VA, RDATA_SZ, RDATA_PRD), mk(".data", DATA_VA, DATA_SZ, DATA_PRD)];
+	// VirtualSize below the stored size (0 as old linkers write it, small, half) in a third of the images: a file view
+	// serves max(VirtualSize, SizeOfRawData) bytes of a section, a mapped view does not look at the table at all
+	if rng.chance(1, 3) {
+		for s in spec.secs.iter_mut() {
+			if rng.chance(1, 2) { s.vs = match rng.below(4) { 0 => 0, 1 => 0x40, 2 => s.srd / 2, _ => s.srd - 1 }; }
+		}
+	}
 	let fill = if rng.chance(1, 3) { 0 } else { rng.range(1, 1000) as u32 };
 	let mut pokes: Vec<(usize, Vec<u8>)> = Vec::new();
 	for (rva, bytes) in &b.pokes {
@@ -550,9 +561,9 @@ fn gen(rng: &mut Rng, i: u64) -> String {
 	}
 	assert!(xs.len() == qs.len());
 	format!(
-		"dirs fmt={} file={} place={} {} soh={} soi={} base={} secs={} nrva={} dd={} q={} x={}",
+		"dirs fmt={} file={} place={} {} soh={} soi={} base={} secs={} nrva={} dd={} q={} x={} rebase={}",
 		if pe64 { 64 } else { 32 }, file as u8, place, img.encode(), spec.soh, spec.soi, base, secs_field(&spec.secs), nrva,
-		join(&dirs.iter().map(|(a, s)| format!("{}:{}", a, s)).collect::<Vec<_>>(), ";"), join(&qs, ","), join(&xs, ",")
+		join(&dirs.iter().map(|(a, s)| format!("{}:{}", a, s)).collect::<Vec<_>>(), ";"), join(&qs, ","), join(&xs, ","), (rebased && hdr_base != base) as u8
 	)
 }
 
@@ -734,11 +745,13 @@ fn run(case: &str) -> String {
 	let blen = b.len();
 	let file = field(case, "file") == "1";
 	let qs: Vec<&str> = split(field(case, "q"), ',');
+	let rebase = case.contains(" rebase=1");
+	let vbase: u64 = field(case, "base").parse().unwrap();
 	let out: Vec<String> = match (field(case, "fmt"), file) {
 		("32", true) => match pe32::PeFile::from_bytes(b) { Ok(v) => run_queries!(pe32, v, qs.iter(), base, blen), Err(e) => return format!("!ctor {:?}", e) },
 		("64", true) => match pe64::PeFile::from_bytes(b) { Ok(v) => run_queries!(pe64, v, qs.iter(), base, blen), Err(e) => return format!("!ctor {:?}", e) },
-		("32", false) => match pe32::PeView::from_bytes(b) { Ok(v) => run_queries!(pe32, v, qs.iter(), base, blen), Err(e) => return format!("!ctor {:?}", e) },
-		_ => match pe64::PeView::from_bytes(b) { Ok(v) => run_queries!(pe64, v, qs.iter(), base, blen), Err(e) => return format!("!ctor {:?}", e) },
+		("32", false) => match pe32::PeView::from_bytes(b) { Ok(v) => { let v = if rebase { v.set_base_address(vbase as u32) } else { v }; run_queries!(pe32, v, qs.iter(), base, blen) }, Err(e) => return format!("!ctor {:?}", e) },
+		_ => match pe64::PeView::from_bytes(b) { Ok(v) => { let v = if rebase { v.set_base_address(vbase) } else { v }; run_queries!(pe64, v, qs.iter(), base, blen) }, Err(e) => return format!("!ctor {:?}", e) },
 	};
 	format!("r={}", out.join(","))
 }
